@@ -15,12 +15,18 @@ TECHNIQUE = (
     "recorded histories + offline checker: concurrent callers, the cyclic tester-present worker and reconnects share one real ECU "
     "client on a simulated wire in virtual time; every client call/return and transport write/read/reconnect is logged with the "
     "calling task; the checker decides exclusion (no foreign transport event inside an exchange window), reply ownership (unique "
-    "identifier per request) and progress after cancellation/failure (empty virtual schedule = never released)"
+    "identifier per request; for replies without an identifier - refusals with a negative response code, byte-identical for different "
+    "requests - the request attached to the returned reply object, read when the call returns and again after every later exchange "
+    "ended, and the identity of the reply objects held by different callers) and progress after cancellation/failure (empty virtual "
+    "schedule = never released)"
 )
 LEVEL_TEXT = (
     "Exploration of schedules: 2..5 callers + tester-present worker + occasional reconnect, per-caller reply scripts {immediate, "
     "k x pending, no reply, late reply after the timeout, connection error, b x busyRepeatRequest then the reply to the retransmission, "
-    "busyRepeatRequest on every attempt (retries run out), no reply to the first a transmissions then a reply}, retries allowed by the "
+    "busyRepeatRequest on every attempt (retries run out), no reply to the first a transmissions then a reply, refusal with a negative "
+    "response code from a small set so that different requests of one history get byte-identical replies (immediately or after k x "
+    "pending)}, every caller keeps the reply objects it was handed until all callers ended, database logging that takes no time or "
+    "some time (other exchanges run while a caller is still inside its call), retries allowed by the "
     "client setting or by the per-request configuration, other callers placed inside the back-off pause between two transmissions of "
     "one request, seeded arrival offsets and yield injection at the "
     "transport's await points, and cancellation of one caller at every transport event index of the uncancelled run (sampled in "
@@ -29,13 +35,16 @@ LEVEL_TEXT = (
 )
 LEVEL_NOTE = (
     "Trusted: wire simulation and checker in vf/checks/c05.py, virtual clock. Requests carry unique data identifiers so a positive "
-    "reply identifies its request; negative finals (incl. a busyRepeatRequest final once the retries have run out) are not used as "
-    "results because they carry no identifier. An exchange window spans all transmissions of one request: it opens at the task's "
+    "reply identifies its request; negative finals (refusals, a busyRepeatRequest final once the retries have run out) carry no "
+    "identifier: they are judged by the negative response code the simulated ECU planned for that request and by the request the "
+    "returned reply object names (UDSResponse.trigger_request, compared by bytes with the caller's request). A negative reply that an "
+    "abandoned exchange (cancelled caller) left on the wire and the next exchange reads cannot be told apart by any client and is not "
+    "judged by its bytes. An exchange window spans all transmissions of one request: it opens at the task's "
     "first transport event and closes when the client hands the final reply or error back (database logging / return of the call)."
 )
 RULE = (
     "cases = (number of callers, reply script per caller, per-request retry setting, arrival offsets, yield seed, tester-present "
-    "interval, reconnect time, cancellation point); non-trivial = at least two exchanges overlapped in time (a caller arrived while another held the client); "
+    "interval, reconnect time, database logging time, cancellation point); non-trivial = at least two exchanges overlapped in time (a caller arrived while another held the client); "
     "distinct = distinct case tuples; distinct_traces = distinct (event kind, task) sequences"
 )
 ASSUMPTIONS = [
@@ -45,9 +54,12 @@ ASSUMPTIONS = [
 EXHAUSTIVE = {"quick": False, "thorough": False}
 EXHAUSTIVE_NOTE = "thorough enumerates every cancellation point (transport event index) of each base history"
 
-KINDS = ["immediate", "pending", "silent", "late", "connerr", "busy", "busy-always", "flaky"]
+KINDS = ["immediate", "pending", "silent", "late", "connerr", "busy", "busy-always", "flaky", "refused", "pending-refused"]
 BUSY = bytes([0x7F, 0x22, 0x21])
 RETRY_KINDS = ("busy", "busy-always", "flaky")
+REFUSED_KINDS = ("refused", "pending-refused")
+# negative response codes of a refusal: few, so that different requests of one history are answered with byte-identical replies
+NRCS = [0x31, 0x31, 0x31, 0x33, 0x22]
 
 
 def shards(tier: str, seed: int) -> list[dict[str, Any]]:
@@ -65,7 +77,11 @@ def required_reach(tier: str) -> dict[str, int]:
             "busy.retried-then-answered": 50, "busy.retries-exhausted": 30, "busy-backoff.caller-arrives": 30, "busy-backoff.caller-queued": 30,
             "busy-backoff.tp-worker-waiting": 5, "busy-backoff.reconnect-waiting": 3, "busy-backoff.second-pause-contended": 5,
             "timeout-backoff.caller-arrives": 20, "timeout-backoff.caller-queued": 20, "timeout-retry.answered": 30,
-            "retry.per-request-config": 50, "retry.client-setting": 50}
+            "retry.per-request-config": 50, "retry.client-setting": 50,
+            # different requests of one history answered with byte-identical replies (refusals without an identifier); every caller keeps
+            # its reply object while later exchanges run / is still inside its call (database logging takes time) when the next one ends
+            "refused.results-owned": 1000, "attribution.negative-replies-judged": 1000, "same-bytes.reply-held-across-later-exchange": 500,
+            "same-bytes.exchange-ends-while-earlier-caller-logs": 30}
 
 
 class Wire:
@@ -107,13 +123,16 @@ class Wire:
         self.plans = plans
         self.rng = rng
         self.hist = hist
-        self.queue: list[tuple[float, int, Any]] = []
+        self.queue: list[tuple[float, int, Any, bytes]] = []
         self.seq = 0
         self.arrived = asyncio.Event()
         self.nevents = 0
         self.cancel_at: int | None = None
         self.cancel_target: asyncio.Task[Any] | None = None
         self.sent: dict[bytes, int] = {}
+        # negative replies that were produced for an earlier (abandoned) request and delivered inside a later request's exchange
+        self.last_written: bytes | None = None
+        self.stale_negative: list[tuple[str, bytes]] = []
         self.transport = WireTransport()
 
     def who(self) -> str:
@@ -132,6 +151,7 @@ class Wire:
     def on_request(self, data: bytes) -> None:
         loop = asyncio.get_running_loop()
         now = loop.time()
+        self.last_written = data
         plan = self.plans.get(data)
         if isinstance(plan, dict):
             # one reply plan per transmission of this request, then "rest" for every further one
@@ -146,7 +166,7 @@ class Wire:
         for delay, reply in plan:
             t += delay
             self.seq += 1
-            self.queue.append((t, self.seq, reply))
+            self.queue.append((t, self.seq, reply, data))
         # a plan that contains a one-shot connection error only fires once
         if any(r == "CONNERR" for _, r in plan):
             self.plans[data] = [(0.01, positive(data))]
@@ -159,9 +179,11 @@ class Wire:
         while True:
             now = loop.time()
             if self.queue and self.queue[0][0] <= now + 1e-12:
-                _, _, reply = self.queue.pop(0)
+                _, _, reply, origin = self.queue.pop(0)
                 if reply == "CONNERR":
                     raise ConnectionResetError("wire: connection lost")
+                if reply[:1] == b"\x7f" and reply[2:3] != b"\x78" and origin != self.last_written:
+                    self.stale_negative.append((self.who(), reply))
                 return reply
             wait = None if deadline is None else max(0.0, deadline - now)
             if self.queue:
@@ -176,6 +198,12 @@ class Wire:
                 pass
 
 
+def named_request(resp: Any) -> bytes | None:
+    """the request a reply object says it answers (None: it names none)"""
+    trig = getattr(resp, "trigger_request", None)
+    return None if trig is None else bytes(trig.pdu)
+
+
 def positive(req: bytes) -> bytes:
     return bytes([0x62]) + req[1:3] + b"\xa5" + req[1:3]
 
@@ -184,11 +212,11 @@ def build_case(rng: random.Random) -> dict[str, Any]:
     n = rng.randint(2, 5)
     callers = []
     for i in range(n):
-        kind = rng.choices(KINDS, weights=[4, 4, 2, 3, 2, 3, 1, 2])[0]
+        kind = rng.choices(KINDS, weights=[4, 4, 2, 3, 2, 3, 1, 2, 4, 2])[0]
         callers.append({"did": 0x1000 + i * 0x111 + rng.randrange(0x100), "kind": kind, "k": rng.randint(1, 4), "start": rng.choice([0.0, 0.0, 0.01, 0.2, 0.9, 1.1, rng.random() * 3]),
                         "calls": rng.choice([1, 1, 2]),
                         # busy: the first b transmissions are answered with busyRepeatRequest; flaky: the first a transmissions get no reply
-                        "b": rng.randint(1, 3), "a": rng.randint(1, 2),
+                        "b": rng.randint(1, 3), "a": rng.randint(1, 2), "nrc": rng.choice(NRCS),
                         # retries allowed for this caller's requests by the per-request configuration (None: the client's setting applies)
                         "retry": rng.choice([None, None, 0, 1, 2, 3]) if kind not in RETRY_KINDS else rng.choice([None, 1, 2, 3])})
     case = {"callers": callers, "timeout": rng.choice([0.5, 1.0]), "max_retry": rng.choice([0, 0, 1, 2]), "tp": rng.choice([None, 0.3, 1.0, 2.0]),
@@ -201,7 +229,9 @@ def build_case(rng: random.Random) -> dict[str, Any]:
             "plain_client": rng.random() < 0.2,
             # a database handler whose insert is a suspension point (as the real queue put / a full queue is): logging happens after the
             # exchange, outside the client mutex
-            "db": rng.random() < 0.4}
+            "db": rng.random() < 0.4,
+            # ... and takes no time or some time: the caller is still inside its call while the next exchanges run
+            "db_delay": rng.choice([0, 0, 0.02, 0.3, 1.0])}
     # usage class: another user of the client arrives (or is already queued) while a request that will be transmitted again is in the
     # pause between two of its transmissions
     for x in callers:
@@ -245,6 +275,10 @@ def plans_for(case: dict[str, Any]) -> dict[bytes, list[tuple[Any, ...]]]:
                 plans[req] = {"attempts": [[(0.01, BUSY)] for _ in range(c.get("b", 1))], "rest": [(0.01, positive(req))]}  # type: ignore[assignment]
             elif c["kind"] == "busy-always":
                 plans[req] = {"attempts": [], "rest": [(0.01, BUSY)]}  # type: ignore[assignment]
+            elif c["kind"] == "refused":
+                plans[req] = [(0.01, bytes([0x7F, 0x22, c["nrc"]]))]
+            elif c["kind"] == "pending-refused":
+                plans[req] = [(0.05, pend)] + [(0.3, pend)] * (c["k"] - 1) + [(0.3, bytes([0x7F, 0x22, c["nrc"]]))]
             elif c["kind"] == "flaky":
                 plans[req] = {"attempts": [[] for _ in range(c.get("a", 1))], "rest": [(0.01, positive(req))]}  # type: ignore[assignment]
     return plans
@@ -268,7 +302,7 @@ async def run_history(case: dict[str, Any], cancel_at: int | None, cancel_idx: i
         class _DB:
             async def insert_scan_result(self, *a: Any, **k: Any) -> None:
                 await wire.event("db-insert", None)
-                await asyncio.sleep(0)  # always a suspension point (the real handler awaits its queue)
+                await asyncio.sleep(case.get("db_delay") or 0)  # always a suspension point (the real handler awaits its queue)
 
         ecu.db_handler = _DB()  # type: ignore[assignment]
         ctx_reach_db = True
@@ -276,6 +310,7 @@ async def run_history(case: dict[str, Any], cancel_at: int | None, cancel_idx: i
         ctx_reach_db = False
     loop = asyncio.get_running_loop()
     results: dict[str, list[Any]] = {}
+    held: list[dict[str, Any]] = []  # every reply object a caller was handed is kept (as a scanner keeps its findings) until all ended
     ctx_reach: list[str] = ["db-logging.histories"] if ctx_reach_db else []
     if not isinstance(ecu, ECU):
         ctx_reach.append("plain-client.histories")
@@ -302,6 +337,8 @@ async def run_history(case: dict[str, Any], cancel_at: int | None, cancel_idx: i
                     r = await ecu.read_data_by_identifier(did, config=cfg)
                 hist.append(("return", name, ("ok", r.pdu), loop.time()))
                 results.setdefault(name, []).append(("ok", did, r.pdu))
+                if case.get("mode") != "transport":
+                    held.append({"caller": name, "did": did, "resp": r, "ret": len(hist) - 1, "at_return": named_request(r)})
             except asyncio.CancelledError:
                 hist.append(("return", name, ("cancelled", None), loop.time()))
                 raise
@@ -357,7 +394,11 @@ async def run_history(case: dict[str, Any], cancel_at: int | None, cancel_idx: i
     end = loop.time()
     if case["tp"] is not None:
         await ecu.stop_cyclic_tester_present()
-    return {"hist": hist, "results": results, "end": end, "reach": ctx_reach, "transport_mutex_locked": wire.transport.mutex.locked(), "gather": [type(d).__name__ if isinstance(d, BaseException) else None for d in done], "mutex_locked": ecu.mutex.locked()}
+    objs: dict[int, int] = {}
+    for h in held:
+        r = h.pop("resp")
+        h.update({"at_end": named_request(r), "obj": objs.setdefault(id(r), len(objs)), "pdu": bytes(r.pdu)})
+    return {"held": held, "stale_negative": wire.stale_negative, "hist": hist, "results": results, "end": end, "reach": ctx_reach, "transport_mutex_locked": wire.transport.mutex.locked(), "gather": [type(d).__name__ if isinstance(d, BaseException) else None for d in done], "mutex_locked": ecu.mutex.locked()}
 
 
 def check_history(ctx: Any, case: dict[str, Any], out: dict[str, Any], cancel: tuple[int, int] | None) -> None:
@@ -430,19 +471,35 @@ def check_history(ctx: Any, case: dict[str, Any], out: dict[str, Any], cancel: t
     own: dict[str, set[int]] = {}
     for i, c in enumerate(case["callers"]):
         own[f"caller{i}"] = {(c["did"] + k * 7) & 0xFFFF for k in range(c["calls"])}
+    refusal: dict[int, bytes] = {}  # the negative reply the simulated ECU gives to this request
+    for c in case["callers"]:
+        if c["kind"] in REFUSED_KINDS:
+            refusal.update({(c["did"] + k * 7) & 0xFFFF: bytes([0x7F, 0x22, c["nrc"]]) for k in range(c["calls"])})
+    stale = set(out.get("stale_negative", []))
     for name, res in out["results"].items():
         for status, did, val in res:
             if case.get("mode") == "transport":
                 continue  # raw bytes: a late reply of an earlier timed-out exchange may legitimately be read here; only exclusion is decided
             if status == "ok" and val == BUSY:
-                continue  # a negative final carries no identifier: not used as a result (reach_backoff counts the owned ones)
-            if status == "ok":
+                continue  # a busy final carries no identifier and no request-specific code: judged by the request its object names (below)
+            if status == "ok" and val[:1] == b"\x7f" and (name, val) in stale:
+                # a negative reply an abandoned exchange (cancelled caller) left on the wire: no client can tell it from its own
+                ctx.reach("stale-negative-reply.accepted")
+                continue
+            if status == "ok" and did in refusal:
+                if val != refusal[did]:
+                    ctx.violation("ownership/foreign-reply-returned", "a caller received a reply that belongs to another request", {**w, "caller": name, "did": did, "got": val})
+                    return
+                ctx.reach("refused.results-owned")
+            elif status == "ok":
                 if len(val) < 3 or val[0] != 0x62 or int.from_bytes(val[1:3], "big") != did or val != positive(bytes([0x22]) + did.to_bytes(2, "big")):
                     ctx.violation("ownership/foreign-reply-returned", "a caller received a reply that belongs to another request", {**w, "caller": name, "did": did, "got": val})
                     return
                 ctx.reach("results.owned")
             elif val == "RequestResponseMismatch":
                 ctx.reach("late-reply-surfaced-as-error")
+    if check_attribution(ctx, w, hist, out.get("held", [])):
+        return
     reach_backoff(ctx, case, hist)
     # ---- progress
     if out["mutex_locked"]:
@@ -477,6 +534,44 @@ def check_history(ctx: Any, case: dict[str, Any], out: dict[str, Any], cancel: t
             ctx.reach("cancel.while-holding" if held else "cancel.while-waiting")
             if tgt == "reconnector":
                 ctx.reach("cancel.reconnector")
+
+
+def check_attribution(ctx: Any, w: dict[str, Any], hist: list[tuple[Any, ...]], held: list[dict[str, Any]]) -> bool:
+    """every reply object handed to a caller names the request it answers; that must be the caller's own request when the call returns
+    and still when all later exchanges have ended (the caller keeps its reply), and callers of different requests never hold one
+    and the same reply object. Decisive for replies whose bytes carry no identifier (refusals, busy finals)."""
+    show = [{**h, "at_return": h["at_return"] and h["at_return"].hex(), "at_end": h["at_end"] and h["at_end"].hex(), "pdu": h["pdu"].hex()} for h in held]
+    by_obj: dict[int, set[int]] = {}
+    for h in held:
+        req = bytes([0x22]) + h["did"].to_bytes(2, "big")
+        by_obj.setdefault(h["obj"], set()).add(h["did"])
+        if h["at_return"] is None or h["at_end"] is None:
+            continue  # the statement does not demand that a reply names its request
+        ctx.reach("attribution.replies-judged")
+        if h["pdu"][:1] == b"\x7f":
+            ctx.reach("attribution.negative-replies-judged")
+        for when, key in (("at_return", "when-the-call-returned"), ("at_end", "after-a-later-exchange")):
+            if h[when] != req:
+                ctx.violation(f"ownership/reply-names-foreign-request/{key}", f"{h['caller']} asked for {req.hex()} and holds a reply that says it answers {h[when].hex()}",
+                              {**w, "held": show, "caller": h["caller"], "did": h["did"]})
+                return True
+    if any(len(dids) > 1 for dids in by_obj.values()):
+        ctx.violation("ownership/one-reply-object-for-two-requests", "callers of different requests were handed one and the same reply object", {**w, "held": show})
+        return True
+    # reach: different requests answered with byte-identical replies, the earlier reply still held / its caller still inside its call
+    for a in held:
+        i_db = None
+        for j in range(a["ret"] - 1, -1, -1):
+            if hist[j][1] == a["caller"] and hist[j][0] in ("db-insert", "call"):
+                i_db = j if hist[j][0] == "db-insert" else None
+                break
+        for b in held:
+            if b["did"] == a["did"] or b["pdu"] != a["pdu"] or b["ret"] < a["ret"]:
+                continue
+            ctx.reach("same-bytes.reply-held-across-later-exchange")
+            if i_db is not None and any(hist[j][0] == "read" and hist[j][1] == b["caller"] and hist[j][2] == b["pdu"] for j in range(i_db + 1, a["ret"])):
+                ctx.reach("same-bytes.exchange-ends-while-earlier-caller-logs")
+    return False
 
 
 def reach_backoff(ctx: Any, case: dict[str, Any], hist: list[tuple[Any, ...]]) -> None:
